@@ -403,7 +403,8 @@ def r01d(ck, prog):
                 else:
                     # after the row loop: the loop that calls make_linear_sequence must not be reachable after it
                     pa = F.cfg.position(a)
-                    for c in F.body.calls("make_linear_sequence"):
+                    rsites = [c for c in F.body.calls("make_linear_sequence")] or [c for c, _ in _render_sites(prog, F) if c.k == "CallExpr"]
+                    for c in rsites:
                         pc = F.cfg.position(c)
                         loops = [x for x in c.ancestors() if x.k in ("ForStmt", "WhileStmt", "DoStmt")]
                         if not loops:
@@ -412,8 +413,8 @@ def r01d(ck, prog):
                         if F.cfg.reaches(pa, pc) or a.within(loops[-1]) or not F.cfg.dominates(lc, pa):
                             ck.violation("R01d", "R01d/finalise_alignment/final-early", where,
                                          "ALN_STATUS_FINAL can be assigned before/without building the rows", prog.config)
-                    if not list(F.body.calls("make_linear_sequence")):
-                        raise AnalysisBroken("R01d slot: finalise_alignment does not call make_linear_sequence")
+                    if not rsites:
+                        raise AnalysisBroken("R01d slot: finalise_alignment does not call make_linear_sequence (neither directly nor through a per-sequence helper)")
                     # alnlen set alongside
                     al = list(stores_to_field(F.body, "msa", "alnlen"))
                     if not al:
@@ -542,6 +543,37 @@ def r01h(ck, prog):
     ck.floor("R01h", n, 1, "record-to-record name copies")
 
 
+def _real_loops(n):
+    """enclosing loops of n, innermost first, without the do{ }while(0) of statement macros"""
+    return [x for x in n.ancestors() if x.k in ("ForStmt", "WhileStmt") or
+            (x.k == "DoStmt" and not (x.child("cond") is not None and x.child("cond").cv == 0))]
+
+
+def _render_sites(prog, FA):
+    """the places of finalise_alignment where one sequence's row is rendered and installed: a store X->seq = <row> next to a
+    call of make_linear_sequence, or a call of a private helper that does both on every success path.
+    Returns [(node in FA, enclosing loop or None)]"""
+    out = []
+    direct = list(stores_to_field(FA.body, "msa_seq", "seq"))
+    if direct and list(FA.body.calls("make_linear_sequence")):
+        for a, lhs, rhs in direct:
+            lp = _real_loops(a)
+            out.append((a, lp[0] if lp else None))
+    for c in FA.body.calls():
+        H = prog.fn(prog.resolve(c.callee, FA.file), required=False) if c.callee else None
+        if H is None or H is FA or H.body is None or H.cfg is None or not (H.static and H.file == FA.file):
+            continue
+        mk = list(H.body.calls("make_linear_sequence"))
+        st = list(stores_to_field(H.body, "msa_seq", "seq"))
+        if not mk or not st:
+            continue
+        if H.succeeds_avoiding([H.cfg.position(x) for x in mk]) or H.succeeds_avoiding([H.cfg.position(x[0]) for x in st]):
+            raise AnalysisBroken("R01i: the helper %s renders / installs the row on some success paths only; not decided" % H.name)
+        lp = _real_loops(c)
+        out.append((c, lp[0] if lp else None))
+    return out
+
+
 def r01i(ck, prog):
     """gap counts -> gapped rows: (1) finalise_alignment renders every sequence - the loop that replaces msa_seq.seq by the
     rendered row runs over exactly [0, numseq); (2) in make_linear_sequence the gaps[j] dashes are written before residue j
@@ -550,11 +582,7 @@ def r01i(ck, prog):
     from ..affine import loop_range, single_defs
     FA = prog.fn("finalise_alignment")
     n = 0
-    loops = []
-    for a, lhs, rhs in stores_to_field(FA.body, "msa_seq", "seq"):
-        lp = [x for x in a.ancestors() if x.k == "ForStmt"]
-        if lp:
-            loops.append((lp[0], a))
+    loops = [(lp, a) for a, lp in _render_sites(prog, FA) if lp is not None]
     if not loops:
         raise AnalysisBroken("R01i: the loop of finalise_alignment that installs the rendered rows was not found")
     for lp, a in loops:
@@ -593,6 +621,36 @@ def r01i(ck, prog):
             dashes.append(x)
     n += 1
     where = site(prog, lp, "residue loop")
+    if not dashes and var is not None:
+        # the dashes may be written by a private helper (append_gaps(out, pos, seq->gaps[j])): read the loop body flattened
+        from ..inline import flatten, walk_events, render, resolve
+        evs = list(walk_events(flatten(prog, ML, [lp.child("body")])))
+        di = [i for i, e in enumerate(evs) if e[0] == "store" and e[2] is not None and const_value(resolve(e[2], e[3])[0]) == ord("-")]
+        ri = [i for i, e in enumerate(evs) if e[0] == "store" and e[2] is not None and
+              any(m.d.get("field") == "seq" and m.d.get("rec") == "msa_seq" for m in resolve(e[2], e[3])[0].find("MemberExpr"))]
+        texts = []
+        for e in evs:
+            if e[0] == "enter":
+                texts += [render(a_, e[3]) for a_ in e[2].args]
+            elif e[0] == "if":
+                texts.append(render(e[1], e[2]))
+            elif e[0] == "loop":
+                texts += [render(c_, e[2]) for c_ in [e[1].child("cond"), e[1].child("init")] if c_ is not None]
+        if di and ri:
+            n += 1
+            where = site(prog, lp, "residue loop")
+            before = max(di) < min(ri)
+            ck.inst("R01i", where, "make_linear_sequence: dashes of gaps[%s] are written (through a helper) %s residue %s" % (
+                var, "before" if before else "AFTER", var), prog.config)
+            if not any(("gaps[%s]" % var) in t_ for t_ in texts):
+                raise AnalysisBroken("R01i: the dashes written in the residue loop are not counted by gaps[%s]" % var)
+            if not before:
+                ck.violation("R01i", "R01i/make_linear_sequence/order", where,
+                             "make_linear_sequence writes residue %s before the gaps[%s] dashes: slot %s counts the gap columns in front of residue %s "
+                             "(that is how the readers and update_gaps fill it), so every residue behind a gap moves left and the columns of a finished "
+                             "group are torn apart" % (var, var, var, var), prog.config)
+            ck.floor("R01i", n, 2, "rendering sites")
+            return
     if not dashes or var is None:
         raise AnalysisBroken("R01i: how make_linear_sequence writes the gap symbols of slot j is not recognised")
     # the gap slot the dashes of this iteration stand for: gaps[<loop variable>] in the count / inner bound
